@@ -22,7 +22,7 @@ RULE = ('[session: every ordered pair of results of a family (statistics of task
         'the 6 verbosities through TableRepresenter, FullTableRepresenter, FullRepresenter and Rst.format_result. Oracle: rendering does '
         'not raise; the rst parses without warning; a highlight / KO mark is present iff the (part of the) result is false; in per-bin '
         'tables every cell reads back as the formatted input and the marked rows are exactly the failing bins; the same after every '
-        'slice table[a:b] and every join of two tables; non-trivial = cases with at least one failing item, a multi-dimensional shape or '
+        'slice table[a:b] and every join of two tables, and for tables with N-d columns (multi-dimensional datasets, C and Fortran order) after every slice along the first two axes, copy.join(copy), copy.join(original) and table[:k].join(table[k:]), compared as multisets of rows (cells + marks) with one-cell tables cut out by plain indexing; non-trivial = cases with at least one failing item, a multi-dimensional shape or '
         'several datasets')
 ASSUMPTIONS = ['docutils parsing is the definition of valid reStructuredText',
                'plot templates carry no text: they are produced (no exception allowed) but not inspected',
